@@ -538,6 +538,112 @@ theorem requestCheck_spec (k g f : Bool) (baud ms sp : Int) :
   unfold requestCheck
   cases k <;> cases g <;> cases f <;> simp <;> (try split) <;> (try split) <;> simp_all <;> omega
 
+/-! ### which roadm-osnr each crossing contributes (profiles of GnpyModel/Roadm.lean) -/
+
+section crossings
+open Gnpy.Roadm (PType Band Profile selectProfile lookupBands firstOfType)
+
+/-- linear noise contribution of one crossing for the carrier at `f` (0 when it contributes nothing) -/
+noncomputable def crossingLin (c : Crossing ℝ) (f : ℝ) : ℝ :=
+  match crossingOsnr c f with
+  | .ok (some v) => db2lin (-v)
+  | _ => 0
+
+theorem crossingsOsnr_cons (c : Crossing ℝ) (cs : List (Crossing ℝ)) (f : ℝ) (l : List (Option ℝ))
+    (h : crossingsOsnr (c :: cs) f = .ok l) :
+    ∃ o l', crossingOsnr c f = .ok o ∧ crossingsOsnr cs f = .ok l' ∧ l = o :: l' := by
+  unfold crossingsOsnr at h ⊢
+  rw [List.mapM_cons] at h
+  cases ho : crossingOsnr c f with
+  | error e => rw [ho] at h; simp [bind, Except.bind] at h
+  | ok o =>
+    rw [ho] at h
+    cases hl : List.mapM (fun c => crossingOsnr c f) cs with
+    | error e => rw [hl] at h; simp [bind, Except.bind] at h
+    | ok l' =>
+      rw [hl] at h
+      simp only [bind, Except.bind, pure, Except.pure, Except.ok.injEq] at h
+      exact ⟨o, l', rfl, rfl, h.symm⟩
+
+theorem crossingsOsnr_spec (cs : List (Crossing ℝ)) (f : ℝ) (l : List (Option ℝ)) (h : crossingsOsnr cs f = .ok l) :
+    l.length = cs.length ∧ linSum l = (cs.map (fun c => crossingLin c f)).sum := by
+  induction cs generalizing l with
+  | nil =>
+    simp only [crossingsOsnr, List.mapM_nil, pure, Except.pure, Except.ok.injEq] at h
+    subst h; simp [linSum]
+  | cons c cs ih =>
+    obtain ⟨o, l', ho, hl', rfl⟩ := crossingsOsnr_cons c cs f l h
+    obtain ⟨i1, i2⟩ := ih l' hl'
+    refine ⟨by simp [i1], ?_⟩
+    simp only [List.map_cons, List.sum_cons]
+    cases o with
+    | none =>
+      have hc : crossingLin c f = 0 := by simp [crossingLin, ho]
+      simp only [linSum]; rw [i2, hc]; ring
+    | some v =>
+      have hc : crossingLin c f = db2lin (-v) := by simp [crossingLin, ho]
+      simp only [linSum]; rw [i2, hc]
+
+/-- **add/drop OSNR once per crossing.** For every carrier the receiver's `update_snr` is handed exactly one entry per
+ROADM crossing of the path, in path order, followed by the transmitter OSNR; the linear noise added to the line GSNR
+is the sum over the crossings of each crossing's own contribution — counted once — plus the transmitter's. -/
+theorem adddrop_osnr_once_per_crossing (cs : List (Crossing ℝ)) (f tx : ℝ) (args : List (Option ℝ))
+    (h : receiverArgs cs f tx = .ok args) :
+    args.length = cs.length + 1 ∧
+    linSum args = (cs.map (fun c => crossingLin c f)).sum + db2lin (-tx) := by
+  unfold receiverArgs at h
+  cases hl : crossingsOsnr cs f with
+  | error e => rw [hl] at h; simp at h
+  | ok l =>
+    rw [hl] at h
+    simp only [Except.ok.injEq] at h
+    subst h
+    obtain ⟨i1, i2⟩ := crossingsOsnr_spec cs f l hl
+    refine ⟨by simp [i1], ?_⟩
+    rw [linSum_append, i2]; simp [linSum]
+
+/-- the concrete values: without a library profile and without a user entry an add or drop crossing contributes
+`add_drop_osnr + 10·log10(2)`, i.e. HALF of the node's combined add/drop noise `1/add_drop_osnr` (so add and drop of one
+node type together count `add_drop_osnr` once), and an express crossing contributes nothing -/
+theorem crossing_default_values (ad f : ℝ) :
+    crossingLin { profiles := [], user := none, ptype := PType.add, addDropOsnr := ad } f = db2lin (-ad) / 2 ∧
+    crossingLin { profiles := [], user := none, ptype := PType.drop, addDropOsnr := ad } f = db2lin (-ad) / 2 ∧
+    crossingLin { profiles := [], user := none, ptype := PType.express, addDropOsnr := ad } f = 0 := by
+  have h2 : db2lin (-(ad + lin2db ((2:ℕ):ℝ))) = db2lin (-ad) / 2 := by
+    rw [show -(ad + lin2db ((2:ℕ):ℝ)) = -ad - lin2db ((2:ℕ):ℝ) by ring, db2lin_sub, db2lin_lin2db _ (by norm_num)]
+    norm_num
+  have h3 : db2lin (-lin2db (2:ℝ) + -ad) = db2lin (-ad) / 2 := by
+    rw [← h2]; congr 1; simp
+  refine ⟨?_, ?_, ?_⟩ <;> simp [crossingLin, crossingOsnr, selectProfile, firstOfType, h3]
+
+/-- with a selected profile (the user's `per_degree_impairments` entry, else the first library profile of the path
+type) the contribution is that profile's `roadm-osnr` of the first frequency range containing the carrier; a profile
+without the key (express profiles) contributes nothing -/
+theorem crossing_profile_value (c : Crossing ℝ) (p : Profile ℝ) (f : ℝ)
+    (hsel : selectProfile c.profiles c.user c.ptype = .ok (some p)) :
+    crossingOsnr c f = .ok (lookupBands p.bands f) ∧
+    (lookupBands p.bands f = none → crossingLin c f = 0) ∧
+    (∀ v, lookupBands p.bands f = some v → crossingLin c f = db2lin (-v)) := by
+  have h1 : crossingOsnr c f = .ok (lookupBands p.bands f) := by simp [crossingOsnr, hsel]
+  refine ⟨h1, ?_, ?_⟩
+  · intro hn; simp [crossingLin, h1, hn]
+  · intro v hv; simp [crossingLin, h1, hv]
+
+/-- a trx-to-trx route over default ROADMs of one type: add + express… + drop + tx = `1/add_drop_osnr + 1/tx_osnr` -/
+theorem adddrop_route_default (ad f tx : ℝ) (k : Nat) (args : List (Option ℝ))
+    (h : receiverArgs
+      ({ profiles := [], user := none, ptype := PType.add, addDropOsnr := ad } ::
+        (List.replicate k { profiles := [], user := none, ptype := PType.express, addDropOsnr := ad } ++
+          [{ profiles := [], user := none, ptype := PType.drop, addDropOsnr := ad }])) f tx = .ok args) :
+    linSum args = db2lin (-ad) + db2lin (-tx) := by
+  rw [(adddrop_osnr_once_per_crossing _ f tx args h).2]
+  obtain ⟨a, d, e⟩ := crossing_default_values ad f
+  simp only [List.map_cons, List.map_append, List.map_replicate, List.sum_cons, List.sum_append, List.sum_replicate,
+    List.map_nil, List.sum_nil, a, d, e]
+  simp
+
+end crossings
+
 /-! ### finding F9 (fixed in /repo as 5d202380): the loop as it was does not satisfy `selectMode_spec` -/
 
 def f9A : Mode := { id := 0, baud := 32, bitRate := 200, minSpacing := 50, offset := 0 }
